@@ -2,7 +2,7 @@
    Statements only. *)
 From Coq Require Import List Arith ZArith Bool.
 Import ListNotations.
-From GG Require Import Coerce Coerce_proofs.
+From GG Require Import Coerce Coerce_proofs Coerce_declared.
 
 (* For every input type expression (scalars, enums, input objects, lists and non-null in any nesting)
    and every value the request parser or a JSON decoder can hand over — every Go integer kind with
@@ -60,3 +60,18 @@ Proof.
   split; [|repeat split; reflexivity].
   simpl. split; [repeat constructor; simpl; intuition congruence|]. repeat split; auto; discriminate.
 Qed.
+
+(* "input objects containing only declared fields ... no value is silently altered": whatever CoerceIn
+   accepts holds, at every depth - under lists, non-null wrappers and declared fields - only objects
+   whose keys their input type declares; a key the type does not declare makes the request an error
+   whatever it holds (an explicit null included).  No hypothesis on t or v. *)
+Theorem C04_only_declared_keys_accepted :
+  forall t v w, coerce_input t v = Some w -> only_declared t v = true.
+Proof. exact coerce_input_only_declared. Qed.
+Print Assumptions C04_only_declared_keys_accepted.
+
+Example C04_undeclared_null_key_refused :
+  only_declared ex_input (CMap [(1%nat, CI KInt 1); (9%nat, CNil)]) = false /\
+  coerce_input ex_input (CMap [(1%nat, CI KInt 1); (9%nat, CNil)]) = None /\
+  coerce_input (TListOf ex_input) (CList [CMap [(9%nat, CNil)]]) = None.
+Proof. repeat split; reflexivity. Qed.
